@@ -14,11 +14,16 @@ OPS = ["shell", "exec_out", "streaming_shell", "root", "reboot", "list", "stat",
 
 
 # ------------------------------------------------------------------------------------------ generation
-def gen_step(rng, i, ops=OPS, big=False):
+def gen_step(rng, i, ops=OPS, big=False, maxdata=None, fails=False):
     op = rng.choice(ops)
     sd = "%08x" % rng.getrandbits(32)
     if op in ("shell", "exec_out", "streaming_shell"):
-        return {"op": op, "cmd": "c%d" % i, "decode": rng.random() < 0.5, "cls": rng.choice(gen.CONTENT_CLASSES[:6]), "seed": sd,
+        cmd = "c%d" % i
+        if maxdata is not None and maxdata <= 8192 and rng.random() < 0.12:
+            # a command about as long as the device's maxdata (the OPEN payload is service + ':' + command + NUL)
+            n = maxdata + rng.choice([-9, -8, -7, -6, -5, -1, 0, 3])
+            cmd = ("c%d " % i) + "x" * (n - len("c%d " % i))
+        return {"op": op, "cmd": cmd, "decode": rng.random() < 0.5, "cls": rng.choice(gen.CONTENT_CLASSES[:6]), "seed": sd,
                 "take": (rng.choice([None, None, None, 0, 1, 2]) if op == "streaming_shell" else None)}
     if op == "root":
         return {"op": op, "cls": rng.choice(["empty", "ascii"]), "seed": sd}
@@ -35,15 +40,21 @@ def gen_step(rng, i, ops=OPS, big=False):
                 "dest": rng.choice(["bytesio", "bytesio", "path"]), "cb": rng.choice([None, None, "ok", "raise"])}
     if op == "push":
         size = rng.choice([0, 1, 100, 2047, 2048, 2049, 4087, 4088, 4089, 10000, 70000] + ([300000] if big else []))
-        return {"op": op, "path": "/push%d" % i, "size": size, "seed": sd, "src": rng.choice(["bytesio", "bytesio", "file"]),
-                "mode": rng.choice([0o100644, 0o100777, 0, 1, 0x7FFFFFFF, 0xFFFFFFFF]), "mtime": rng.choice([0, 1, 1234567890, 0x7FFFFFFF, 0xFFFFFFFF]),
-                "cb": rng.choice([None, None, "ok", "raise"])}
+        st = {"op": op, "path": "/push%d" % i, "size": size, "seed": sd, "src": rng.choice(["bytesio", "bytesio", "file"]),
+              "mode": rng.choice([0o100644, 0o100777, 0, 1, 0x7FFFFFFF, 0xFFFFFFFF]), "mtime": rng.choice([0, 1, 1234567890, 0x7FFFFFFF, 0xFFFFFFFF]),
+              "cb": rng.choice([None, None, "ok", "raise"])}
+        if fails and rng.random() < 0.35:
+            # the device rejects the transfer; where its FAIL goes relative to its OKAYs is the adversary's choice
+            st["fail"] = [rng.choice(["send", "done", ["data", 1], ["data", 2]]), rng.choice([b"denied", b"", b"no space left \xff"]).hex()]
+            st["size"] = rng.choice([size, 10000, 30000])
+        return st
     raise ValueError(op)
 
 
-def gen_scenario(rng, nsteps=None, ops=OPS, big=False):
+def gen_scenario(rng, nsteps=None, ops=OPS, big=False, fails=False, long_cmds=False):
     n = nsteps if nsteps is not None else rng.randint(1, 8)
-    return {"dims": gen.common_dims(rng), "steps": [gen_step(rng, i, ops, big) for i in range(n)]}
+    dims = gen.common_dims(rng)
+    return {"dims": dims, "steps": [gen_step(rng, i, ops, big, maxdata=dims["maxdata"] if long_cmds else None, fails=fails) for i in range(n)]}
 
 
 def blob(seed, size):
@@ -214,6 +225,9 @@ class Runner(object):
         cb = make_callback(self.sess.impl, step.get("cb"), cb_calls)
         if step.get("dest") == "path":
             dest = os.path.join(self.tmpdir(), "pulled%d" % i)
+            if rng.random() < 0.5:
+                with open(dest, "wb") as f:
+                    f.write(b"STALE CONTENT OF AN EARLIER FILE " * 40)   # pull must replace it
         else:
             dest = io.BytesIO()
         return "pull", (step["path"], dest), {"progress_callback": cb}, (content, dest, cb, cb_calls)
@@ -222,7 +236,12 @@ class Runner(object):
         content, dest, cb, cb_calls = ctx
         if not out.ok:
             return self._raised("C08", step, out)
-        got = dest.getvalue() if isinstance(dest, io.BytesIO) else open(dest, "rb").read()
+        if isinstance(dest, io.BytesIO):
+            got = dest.getvalue()
+        elif os.path.exists(dest):
+            got = open(dest, "rb").read()
+        else:
+            return [self._v("C08", "destination-missing", "pull(%s) returned normally but the destination file was never created (device file has %d bytes)" % (step["path"], len(content)))]
         v = []
         if got != content:
             v.append(self._v("C08", "wrong-bytes", "pull(%s) wrote %d bytes, device file has %d (first difference at %s)" % (step["path"], len(got), len(content), _first_diff(got, content))))
@@ -243,6 +262,9 @@ class Runner(object):
                 f.write(content)
         else:
             src = io.BytesIO(content)
+        if step.get("fail"):
+            point = step["fail"][0]
+            plan.send_fail[step["path"].encode()] = (tuple(point) if isinstance(point, list) else point, bytes.fromhex(step["fail"][1]))
         t0 = self.sess.clock.now()
         return "push", (src, step["path"]), {"st_mode": step["mode"], "mtime": step["mtime"], "progress_callback": cb}, (content, cb, cb_calls, t0, len(plan.pushed))
 
@@ -250,6 +272,13 @@ class Runner(object):
         content, cb, cb_calls, t0, n_before = ctx
         plan = self.sim.sync_plan
         t1 = self.sess.clock.now()
+        failed = [p for p in plan.pushed[n_before:] if p["path"] == step["path"].encode() and p["status"] == "FAIL"]
+        if step.get("fail") and failed:       # (a FAIL point beyond the number of DATA records never triggers)
+            if out.ok:
+                return [self._v("C10", "returned-normally", "push(%s) returned although the device answered FAIL at %r" % (step["path"], step["fail"][0]))]
+            if out.exc_name() != "PushFailedError":
+                return [self._v("C10", "wrong-exception", "push(%s): device FAILed at %r, raised %s" % (step["path"], step["fail"][0], out.brief(120)))]
+            return []
         if not out.ok:
             mech = "raised:%s" % (out.exc_name() or out.kind)
             if cb is not None and step.get("src") != "file" and out.exc_name() in ("UnsupportedOperation", "AttributeError"):
